@@ -232,8 +232,9 @@ struct PSDom {
   // is specified by its postcondition only (no two disjuncts of the result have an exact upper bound): which pairs are merged
   // depends on the order of the sequence.  A different *order* of the disjuncts may therefore give a different result; this is
   // counted, not reported.  Representations that keep the order (or differ in redundant disjuncts) must give the same value.
-  std::string repdep_caveat(const std::string& op, const PSVal&, const PSVal&, const std::string& xn, const std::string& yn) const {
+  std::string repdep_caveat(const std::string& op, const PSVal&, const PSVal&, const std::string& xn, const std::string& yn, const std::string& known_defect_trigger) const {
     if (op.compare(0, 5, "BGP99") == 0) return "bgp99_pairwise_reduce_and_collapse_follow_the_sequence_order";
+    if (known_defect_trigger != "none") return "";      // reported under the trigger of the known defect
     auto reorders = [](const std::string& n) { return n.compare(0, 8, "reversed") == 0 || n.compare(0, 7, "rotated") == 0; };
     return (reorders(xn) || reorders(yn)) ? "pairwise_merge_specified_up_to_the_order_of_the_disjuncts" : "";
   }
